@@ -269,15 +269,18 @@ prop('C10',
      level='other',
      claim='Narrow (Verus, unbounded, sequential): for POST /{topic} the hash in the appended frame is exactly the hash cacache returned '
            'for committing exactly the request body, a hash is present iff at least one body byte was written, and the CAS commit '
-           'precedes the append; POST /cas rejects an empty body with 400 and otherwise commits exactly the body. Byte-exact '
+           'precedes the append; POST /cas rejects an empty body with 400 and otherwise commits exactly the body; a byte stream handed to the nu '
+           '`.append` command (write_pipeline_to_cas) is committed whole whatever sizes its reads come in; handler / generator / command '
+           'outputs carry the hash cas_insert returned for the text they emit (C15/C18/C19 obligations). Byte-exact '
            'read-back and hash determinism are properties of cacache/ssri and are assumed.',
      technique=TECH,
-     units=['verus:api_ops'],
-     obligations=['api.append.*', 'api.cas_post.*', 'api_ops.append_body_to_hash.body', 'api_ops.append_builds_frame.body', 'api_ops.cas_post_body_to_hash.body'],
+     units=['verus:api_ops', 'verus:nu_ops'],
+     obligations=['api.append.*', 'api.cas_post.*', 'api_ops.append_body_to_hash.body', 'api_ops.append_builds_frame.body', 'api_ops.cas_post_body_to_hash.body',
+                  'nu.append.*', 'nu_ops.byte_stream_to_cas.body'],
      trusted=['extraction', 'sequential', 'overflow'],
      extra_assumptions=['cacache/ssri: content written and committed is read back byte for byte under the returned hash; the hash is a function of the bytes'],
      explanation='Slices of api.rs against a ghost model of the request body, the CAS writer and the store calls.',
-     not_decided='nu .append / handler / command / generator output paths (nu types); racing followers; crashes')
+     not_decided='the Value arms of write_pipeline_to_cas (string / binary / record conversion is nu work); racing followers; crashes')
 
 prop('C11',
      level='other',
@@ -299,18 +302,19 @@ prop('C13',
            'undecodable JSON and changes nothing; the frame appended by POST /{topic} carries exactly topic/context/hash/meta/ttl of '
            'the request; head-follow uses the requested context; match_route, the whole function, implements the route table of the '
            'property (exact reserved paths /version, /, /cas, /import; prefixes /head/ and /cas/; ids for GET / DELETE; every other POST path '
-           'is a topic with its leading slashes removed; ?context= and ttl decoded or answered with BadRequest).',
+           'is a topic with its leading slashes removed; ?context= and ttl decoded or answered with BadRequest); GET / subscribes once with the options as decoded and renders each frame as one JSON line (NDJSON) or as one SSE event whose id is the frame id and whose data is the JSON text; handle() answers every route with exactly the one operation it names, with the arguments the route carries.',
      technique=TECH,
      units=['verus:api_ops', 'verus:route_ops'],
      obligations=['api_ops.meta_header_str.body', 'api.cas_get.*', 'api.import.bad_json_rejected', 'api.import.error_no_effect',
                   'api.append.frame_from_request', 'api.append.error_no_append', 'api.head_follow.*', 'api.cas_post.empty_rejected',
                   'api.route.*', 'api.validate_integrity.*', 'api_ops.route_ctx_param_*.body', 'api_ops.validate_integrity.body',
-                  'api_ops.cas_get_arm.body', 'route_ops.match_route.body'],
+                  'api_ops.cas_get_arm.body', 'route_ops.match_route.body', 'api.cat.*', 'api_ops.cat_render_frame.body',
+                  'api_ops.cat_subscribes_with_decoded_options.body', 'api.handle.*', 'api_ops.handle_dispatch.body'],
      trusted=['extraction', 'sequential'],
      extra_assumptions=['`match (method, path)` is rewritten into its if / else-if chain (match_pair_desugar); starts_with / strip_prefix / trim_start_matches are prefix '
                         'functions of the text; query decoding, id / hash / option / ttl parsing are functions of the text'],
      explanation='Totality / faithfulness obligations on slices, and the whole of match_route against a routing function written from the route list of the property.',
-     not_decided='NDJSON/SSE rendering, the dispatch in handle(), request sequences (hyper/tokio/url are outside both verifiers)')
+     not_decided='that serde_json renders a frame faithfully, streaming of CAS content, request sequences (hyper/tokio/url are outside both verifiers)')
 
 prop('C14',
      level='other',
